@@ -292,6 +292,10 @@ def run_instance(payload):
         else:
             r = pr.value
             res.cls('typed value' if r.variant == 'Ok' else 'typed error', nontrivial=True)
+            if mode == 'count':
+                res.xval_path('count ' + r.variant, replay, lambda: {'entry': 'typedlist', 'kind': payload['kind'], 'n': payload['n'], 'm': payload['m']})
+            else:
+                res.xval_path('%s %s' % (entry, r.variant), replay, lambda: {'entry': entry, 'wire': hexs(wire_of(ctx.model(), I._fields or [], I._binary))})
             if len(res.samples) < 1 and mode != 'count':
                 res.samples.append({'entry': entry, 'reply': wire_of(ctx.model(), I._fields or [], I._binary).decode('latin1'), 'result': r.variant})
         res.take_stats(ctx.stats); ctx.stats.__init__()
